@@ -21,9 +21,53 @@ pub fn run(tier: Tier) -> i32 {
     rep.assume("sizes between the enumerated windows are represented by the windows (all size decisions in the code are comparisons of linear expressions with 4095/4097/65535/header sizes)");
     rep.assume("an O(1) CRC stand-in is injected through the public CrcCalculator trait (the CRC value itself is C12's concern)");
     first_calls(&rep, tier);
+    ptype_sweep(&rep);
     frag_calls(&rep, tier);
     ext_calls(&rep, tier);
     rep.finish(true)
+}
+
+/// every protocol type from 0x0100 upwards through encap (no extension): whatever is accepted must read, under the
+/// independent parser, as a packet WITHOUT extension carrying that protocol type (0x0100..=0x05FF would read as the id
+/// of an optional extension: a sender that accepts one of them emits a packet whose first PDU bytes are taken for
+/// extension data)
+fn ptype_sweep(rep: &Report) {
+    let pts: Vec<u16> = (0x0100..=0xFFFFu16).collect();
+    pts.par_chunks(1024).for_each(|chunk| {
+        let mut acc = Acc::default();
+        let pd = pdu(12, 1);
+        for &pt in chunk {
+            for l in [L6A, L3A, Lbl::Bcast] {
+                for b in [64usize, 20] {
+                    let mut enc = fast_enc();
+                    let mut buf = vec![SENTINELS[0]; b];
+                    let out = do_encap(&mut enc, &pd, 3, pt, l, &mut buf);
+                    acc.states += 1;
+                    acc.transitions += 1;
+                    acc.calls += 1;
+                    acc.outcome(&format!("ptype-sweep:{}:{}", out.class(), if pt < 0x0600 { "ext-id-range" } else { "ethertype-range" }));
+                    if out.is_ok() {
+                        acc.compared += 1;
+                        let i = FirstIn { pdu: &pd, frag_id: 3, pt, label: l, b, may_substitute: false, exts: &[], mand: None };
+                        let (mut fails, parsed) = wf_first(&i, &out, &buf, SENTINELS[0], &FastCrc);
+                        if let Some(p) = parsed {
+                            if !p.exts.is_empty() {
+                                fails.push(("phantom-extension".into(), format!("the packet reads as carrying extensions {:?}", p.exts)));
+                            }
+                        }
+                        for (cl, txt) in fails {
+                            rep.violation(&format!("C06|encap|ptype-sweep|{}", cl), pt as u64, || {
+                                (format!("encap(pdu_len=12, frag_id=3, pt={:#06x}, label={}, buffer={}) returned {:?}: {}", pt, l.short(), b, out, txt),
+                                 json!({"call":"encap","pdu_len":12,"pdu_pattern":1,"frag_id":3,"pt":pt,"label":l.short(),"buffer_len":b,"prior":"Fresh","result":format!("{:?}",out)}))
+                            });
+                        }
+                    }
+                }
+            }
+        }
+        rep.merge(acc);
+    });
+    rep.part(json!({"part":"protocol-type sweep through encap","protocol_types":"0x0100..=0xFFFF","labels":3,"buffers":[64,20]}));
 }
 
 fn first_calls(rep: &Report, tier: Tier) {
